@@ -1,16 +1,22 @@
 """C09 — active fabric (see DESIGN §8): Lean Conc.Fab model tied to the real fabric threads under dsched."""
-import fabric_corr
+import fabric_corr, pubsub_corr
 
 
 def explore(run, lean):
     fabric_corr.explore(run, "C09", 200 if run.tier == "quick" else 4000)
-    run.extra["rule"] = ("scenarios: 1-4 subscriber queues (plain deques and active-object LockingDeques, several of them empty = equal "
+    pubsub_corr.explore_position(run)
+    run.extra["rule"] = ("(a) scenarios: 1-4 subscriber queues (plain deques and active-object LockingDeques, several of them empty = equal "
                          "contents), one or two client threads issuing subscribe/publish/start/stop/clear/is_alive (start/stop/clear "
                          "from one thread only); half of them structured (subscribe*, publish* before the first start = maximal "
                          "delivery lag); run under the deterministic scheduler with PCT / random choosers; the recorded schedule is "
-                         "replayed on the Lean model and compared per step and on the final registry, queue contents, thread counts")
+                         "replayed on the Lean model and compared per step and on the final registry, queue contents, thread counts; "
+                         "(b) real ActiveObjects subscribing before start / after start from outside / from a handler, spied or not, fifo or "
+                         "lifo (12 configurations, exhaustive): the object is stopped, X1 and X2 are posted, PING is published: lifo => "
+                         "[PING, X1, X2], fifo => [X1, X2, PING]")
     run.assumptions.append("queue.PriorityQueue.get returns the minimum for FabricEvent.__lt__; GIL atomicity of each Queue primitive")
 
 
 def replay(case):
+    if case.get("case", case).get("position"):
+        return pubsub_corr.replay(case)
     return fabric_corr.replay(case)
